@@ -102,6 +102,7 @@ type TimeV struct {
 	Inst                  *Term // abstract instant (BV64 nanoseconds on an arbitrary monotonic axis); civil fields unused when set
 	Off                   *Term // zone view Z2: the offset in effect at this time's instant (nil: the zone's fixed offset)
 	Bef                   *Term // zone view Z2: the instant lies before the zone's transition (Bool; set with Off)
+	Rel                   *Term // zone view Z2: the instant in seconds relative to 00:00 UTC of the anchor day (24-bit; set with Off)
 }
 
 // RegexpV is *regexp.Regexp.
@@ -501,13 +502,16 @@ func (e *Engine) mergeVal(g *Term, a, b Value) (Value, bool) {
 			return nil, false
 		}
 		c := e.tc
-		var off, bef *Term
+		var off, bef, rel *Term
 		if x.Off != nil {
 			off = c.Ite(g, x.Off, y.Off)
-			if x.Bef == nil || y.Bef == nil {
+			if x.Bef == nil || y.Bef == nil || (x.Rel == nil) != (y.Rel == nil) {
 				return nil, false
 			}
 			bef = c.Ite(g, x.Bef, y.Bef)
+			if x.Rel != nil {
+				rel = c.Ite(g, x.Rel, y.Rel)
+			}
 		}
 		if x.Inst != nil {
 			x.Inst = c.Ite(g, x.Inst, y.Inst)
@@ -515,7 +519,7 @@ func (e *Engine) mergeVal(g *Term, a, b Value) (Value, bool) {
 			return x, true
 		}
 		return TimeV{Y: c.Ite(g, x.Y, y.Y), M: c.Ite(g, x.M, y.M), D: c.Ite(g, x.D, y.D), H: c.Ite(g, x.H, y.H),
-			Mi: c.Ite(g, x.Mi, y.Mi), S: c.Ite(g, x.S, y.S), Ns: c.Ite(g, x.Ns, y.Ns), UTC: c.Ite(g, x.UTC, y.UTC), Year0: x.Year0, Off: off, Bef: bef}, true
+			Mi: c.Ite(g, x.Mi, y.Mi), S: c.Ite(g, x.S, y.S), Ns: c.Ite(g, x.Ns, y.Ns), UTC: c.Ite(g, x.UTC, y.UTC), Year0: x.Year0, Off: off, Bef: bef, Rel: rel}, true
 	case RegexpV:
 		y, ok := b.(RegexpV)
 		if !ok || x.Pat != y.Pat {
